@@ -13,6 +13,8 @@ import EmuVerif.Props.C19Term
 #print axioms EmuVerif.Props.C19Term.overshoot_run_eps_one
 #print axioms EmuVerif.Props.C19Term.uniformBound_eps_one
 #print axioms EmuVerif.Props.C19Term.uniformBound_eps_quarter_false
+#print axioms EmuVerif.Brent.over_step
+#print axioms EmuVerif.Props.C19Term.no_uniform_bound_eps_quarter
 #print axioms EmuVerif.Brent.creep_step
 #print axioms EmuVerif.Props.C19Term.creeping_never_terminates
 #print axioms EmuVerif.Props.C19Term.terminatesAlways_false
